@@ -210,6 +210,35 @@ R['C17'] = {"quick": c17('quick'), "thorough": c17('thorough'),
  "require_reach": ["reach:end","reach:accepted"], "opts": {"unwind": 300, "fmtmethods": 1},
  "assumptions": ["fmt.Sprintf/Sprint and strings.* are stubs that return an opaque string and do not panic; String/Error methods of their operands are executed, and a panic inside such a nested call is recovered (as fmt does), so only panics in package rtcp's own code outside fmt are reported"],
  "outside_claim": ["panics inside package fmt or strings", "frames longer than the bound"]}
+def c04(level):
+    q = codec('VpC04_Canonical', level)
+    q += [{"h":"VpC04_CountInflated","a":[[1,0,0],[1,1,0],[1,2,4],[2,0,0],[2,1,0],[2,1,4],[3,0,0,0],[3,1,1,2],[3,2,1,3],[4,0,0],[4,1,0],[4,2,3],[4,1,4]]},
+          {"h":"VpC04_Reserved","a":[[14]] + [[14,k] for k in range(1,8)] + [[13,1],[13,2]]},
+          {"h":"VpC04_APPPadding","a":[[0,4],[0,8],[1,3],[2,2],[3,1],[3,5],[4,4],[5,3],[8,4]]},
+          {"h":"VpC04_CCFBStray"}]
+    return q
+R['C04'] = {"quick": c04('quick'), "thorough": c04('thorough'),
+ "bounds": "canonical RFC encodings (independent reference encoder) of every model value of the codec shapes: " + CODEC_B + "; count-inflated SR/RR/SDES/BYE headers (inflation d symbolic) on 13 shapes; reserved bits: XR header count bits and the reserved bits/octets of each single XR block kind, FIR reserved octets; APP packets with the padding bit for 9 (data, padding) length pairs with symbolic padding octets; CCFB not-received metric blocks with all 2^15 stray bit patterns",
+ "bounds_thorough": "as quick on the thorough codec shapes",
+ "require_reach": ["reach:end"], "opts": {"unwind": 300},
+ "assumptions": ["alternative TWCC chunkings are checked under C13, unnormalised REMB pairs under C14 (all 2^24 wire pairs)", "CCFB num_reports is written in the library's pinned n-1 convention (RFC text unavailable offline)"],
+ "outside_claim": ["shapes not listed", "SDES chunks with more than the minimal null padding"]}
+def c18(level):
+    big = level == 'thorough'
+    q = []
+    for c in shapes(level):
+        d = dict(c); d['h'] = 'VpC18_Ops'; q.append(d)
+    L = [4,8,12,16,20] + ([24] if big else [])
+    q += [{"h":"VpC18_Decode","x":[L,[0,200,201,204],[-1]]},
+          {"h":"VpC18_Decode","x":[[l for l in L if l <= 16],[202,203,206],[-1]]},
+          {"h":"VpC18_Decode","x":[[8,12],[207],[-1]]},
+          {"h":"VpC18_Decode","x":[[12,16,20],[205],[1,5,11,15,0]]}]
+    return q
+R['C18'] = {"quick": c18('quick'), "thorough": c18('thorough'),
+ "bounds": "frame conditions for all field values of the codec shapes (" + CODEC_B + "): Marshal, MarshalSize, DestinationSSRC, String executed twice in interleaved order on a frozen value; decode frame conditions on one symbolic frame of 4..20 octets per packet-type class (4..16 for SDES/BYE/PSFB, 8..12 XR, 12..20 RTPFB), through rtcp.Unmarshal and CompoundPacket.Unmarshal",
+ "require_reach": ["reach:end"], "opts": {"unwind": 300, "fmtmethods": 1},
+ "assumptions": ["the schedule/history quantifier is discharged by reduction (DESIGN C18): the solver decides, for all inputs in the bound, that no operation stores into an object that existed before the call (other than the documented XRHeader fields), into its input buffer or into a package-level variable, and that repeated calls return equal results; freedom from data races and schedule independence then follow from the Go memory model by a pencil-and-paper non-interference argument, not by exploring interleavings", "synchronisation inside fmt/reflect (sync.Pool, type caches) is trusted"],
+ "outside_claim": ["actual exploration of goroutine interleavings", "shapes and frame lengths beyond the bound"]}
 kinds9 = rng(1,9)
 R['C15'] = {
  "quick": [{"h":"VpC15","a":[[]] + [[k] for k in kinds9] + [[k1,k2] for k1 in kinds9 for k2 in kinds9]}],
@@ -220,9 +249,15 @@ R['C15'] = {
  "assumptions": ["reflect is modelled by the engine against go/types of the current source (struct field order, tags, exportedness, sizes)"],
  "outside_claim": ["longer block sequences and other list lengths", "RLE blocks with an odd number of chunks (recorded under C05)"]}
 R['C13'] = {
- "quick": [{"h":"VpC13","a":[[20,8],[24,7],[24,14],[28,7]]},{"h":"VpC13_Chunkings","x":[[0,1,2,3,4],[0,1,2,3,4,8]]}],
- "thorough": [{"h":"VpC13","a":[[20,16],[24,7],[24,14],[24,16],[28,7],[28,14],[32,7]]},{"h":"VpC13_Chunkings","x":[[0,1,2,3,4],rng(0,16)]}],
- "bounds": "wip", "require_reach": ["reach:end","reach:accepted"], "opts": {"unwind": 100}}
+ "quick": [{"h":"VpC13","a":[[20,8],[20,65535]]},{"h":"VpC13_Skeleton","x":[rng(0,13),[-1,0,1,3]]},
+           {"h":"VpC13_Run","x":[[0,1,3,7],[0,1]]},{"h":"VpC13_Chunkings","x":[[0,1,2,3,4],[0,1,2]]}],
+ "thorough": [{"h":"VpC13","a":[[20,8],[20,65535]]},{"h":"VpC13_Skeleton","x":[rng(0,13),[-2,-1,0,1,2,3,4]]},
+           {"h":"VpC13_Run","x":[[0,1,2,3,5,7],[0,1,2]]},{"h":"VpC13_Chunkings","x":[[0,1,2,3,4],[0,1,2,3,4]]}],
+ "bounds": "header-only packets with any status count; 14 chunk sequences (run-length, one-bit and two-bit vector chunks and mixes, runs longer than the remaining count, vectors overshooting it, reserved symbol, empty run, exact fit) x {one octet short, exact, 1 and 3 surplus octets} with all header fields and delta octets symbolic; one run-length chunk with symbolic symbol and symbolic 13-bit run length for status counts {0,1,3,7} x delta areas of {0,1} octets; 5 pairs of different chunkings of the same status sequence; the decoder is compared with an independent expansion of the raw bytes",
+ "bounds_thorough": "as quick with more surplus/deficit octets, status counts {0,1,2,3,5,7} and delta areas of 0..2 octets for the symbolic run",
+ "require_reach": ["reach:end","reach:accepted"], "opts": {"unwind": 200},
+ "assumptions": ["status-chunk words are enumerated (14 sequences) or restricted to a single symbolic run-length chunk; packets whose chunk words are fully symbolic exceeded the solver budget and are outside the claim"],
+ "outside_claim": ["arbitrary symbolic status vectors, more than 3 chunks, status counts above the bound, the uint16 counter wrap near 65535 (documented under C01)"]}
 
 cheap = [1,2,4,5,6,7,10,11,12,13,15,17,18,20,21,22,23]
 def c01(level):
@@ -245,5 +280,7 @@ R['C01'] = {
  "outside_claim": ["inputs longer than the stated lengths", "TransportLayerCC packet status counts above 8, including the uint16 wrap of the processed-packet counter near 65535 (found by reading, reproduced by a hand-built 1108-byte datagram: 3.9M allocations / 224 MiB; recorded in DESIGN.md, not decidable by bounded unrolling)", "Go runtime allocator slack, stack depth"],
 }
 
+for pid in ('C06','C12','C13'):
+    R[pid]['solver'] = 'z3-new'
 json.dump(R, open('/verif/harness/registry.json', 'w'), indent=1)
 print("registry:", ", ".join(f"{k}" for k in R))
